@@ -46,11 +46,19 @@ def model_text(target: str) -> str:
 def check(ctx, prop: str | None = None):
     prop = prop or ctx.prop
     n = 0
+    unknown = []
     for m in load_index():
         if m["property"] != prop:
             continue
         f = resolve(ctx.repo, m["target"])
         params = _codec.decode_params() if m.get("data_is_bytes") else None
-        _codec.agree(ctx, m["rule"], f, model_text(m["target"]), {c: m["sentence"] for c in m["components"]}, params=params, keep=set(m.get("keep", ())), key_prefix="model ", ignore=tuple(m.get("ignore", ())))
+        try:
+            _codec.agree(ctx, m["rule"], f, model_text(m["target"]), {c: m["sentence"] for c in m["components"]}, params=params, keep=set(m.get("keep", ())), key_prefix="model ", ignore=tuple(m.get("ignore", ())))
+        except AnalysisError as exc:
+            unknown.append(str(exc))
         n += 1
+    # a spelling the summariser cannot describe is an analysis error - unless the rules already found a violation,
+    # which stands on its own
+    if unknown and all(o["ok"] for o in ctx.obligations):
+        raise AnalysisError(unknown[0] if len(unknown) == 1 else f"{unknown[0]} (+{len(unknown) - 1} more functions)")
     return n
